@@ -26,6 +26,38 @@ CLAIMED = {
             "Frame sequences (5 B .. 200 KiB) fed to the Packetizer through both input interfaces in generated pieces with draining at generated points; TokioTransport and Buffered over a scripted AsyncRead+AsyncWrite whose every result is generated (short/zero/pending/EOF/error); invariants: frames out = frames in, none early/late, written bytes always a prefix, flush Ok only after everything was written and flushed, EOF and zero-length writes are errors.",
             "Trusts the scripted I/O object to honour the AsyncRead/AsyncWrite contracts; only poll-level schedules of one transport are explored.",
             "property-based testing: model-based (stream prefix invariants) with scripted fault/short-IO injection", "5 C14"),
+    "C02": ("bus", "exploration",
+            "Generated call/reply/abort/destroy/disconnect histories by raw protocol peers of versions 1.14..1.20 run lock-step against the real broker (on a deterministic single-threaded simulator that owns the schedule and the broker's hash orders/cookies) and a reference model; after every step each connection must have received exactly the model's messages: exactly one correctly routed reply per call, none for non-owner/duplicate/post-abort replies.",
+            "Trusts harness/bus/src/model.rs as the statement of the protocol; lock-step (one message in flight per step); broker-chosen serials are read from the observed forwards.",
+            "model-based property testing: generated histories, lock-step comparison with a reference model", "5 C02"),
+    "C03": ("bus", "exploration",
+            "Generated registry histories over a 3x3 UUID pool (collisions, re-creation, foreign access, cascades, disconnects) lock-step against the reference model, plus a bus enumeration by an observer connection after every step that must list exactly the model's live objects and services.",
+            "Trusts the reference model; cookies are read from observed replies and checked for freshness; lock-step.",
+            "model-based property testing with per-step observer enumeration", "5 C03"),
+    "C04": ("bus", "exploration",
+            "Generated subscription/emit/destroy/disconnect histories lock-step against the reference model: fan-out set per emit, owner notifications exactly at 0<->1 transitions (also by disconnect), one ServiceDestroyed per subscribed connection.",
+            "Trusts the reference model; ServiceDestroyed for all-events-only subscribers is left open; lock-step.",
+            "model-based property testing", "5 C04"),
+    "C05": ("bus", "exploration",
+            "Generated channel histories (all capacities incl. 0, low-water neighbourhood, u32::MAX) lock-step against a credit model: exactly-once in-order forwarding within the grant, announcements bounded by the grant, end state machine, single notification of the peer, overflow closes only the receiver, no credit deadlock at quiescence. Client-level Sender/Receiver schedules are covered by C06's channel programs.",
+            "Announcement amounts are the broker's policy (only bounded); lock-step.",
+            "model-based property testing with credit invariants", "5 C05"),
+    "C09": ("bus", "exploration",
+            "Generated mixed histories in which a connection is ended at a generated step in five ways (Shutdown message, transport closed, shutdown_connection, run-future dropped, run-future dropped with a request still queued in the broker) plus a systematic enumeration of the fault step 0..24 x ways; after every step statistics gauges == model counts == verif-hooks snapshot sizes with no cross-reference inconsistency; at the end either everything is released and shutdown_idle completes, or shutdown() delivers one Shutdown per live connection and completes.",
+            "Needs the read-only verif-hooks snapshot; the moment the broker notices a dropped task is read from the snapshot; a queued request of a dropped connection may or may not be processed.",
+            "model-based property testing with fault injection at generated and enumerated points; invariant over snapshot + gauges", "5 C09"),
+    "C10": ("bus", "exploration",
+            "Generated bus-listener histories (six filter shapes, add/remove/clear, three scopes, several listeners per connection, entity churn) lock-step against a model that uses only the plain predicate 'matches any filter': tagged current events + marker last, new events once per connection.",
+            "Trusts the reference model's predicate; lock-step.",
+            "model-based property testing", "5 C10"),
+    "C11": ("bus", "exploration",
+            "Generated abuse histories: abusers send any of the 63 message kinds with live/stale/never-issued ids and well-formed or garbage payloads while probes hold state; no panic, quiescence, and all connections other than the sender must see exactly what the model says for one of {handled, ignored, sender closed}; probes are served at the end. A dedicated class re-finds the recorded known finding (ill-formed payload from a 1.20 peer closes a pre-1.20 receiver).",
+            "The sender's own fate is not judged; main class keeps garbage payloads of 1.20 senders away from pre-1.20 receivers (known finding).",
+            "model-based property testing / protocol fuzzing with a tolerant three-outcome oracle", "5 C11"),
+    "C12": ("bus", "exploration",
+            "Completely enumerated handshake matrix (legacy/new x majors x minors x user data x accept/reject) and gating matrix (negotiated version x gated kinds), plus generated cross-version traffic (calls in both forms, replies, aborts, events, items) with payloads in the sender's epoch: receiver gets the form its version understands, payload meaning preserved, no 1.20 encodings below 1.20.",
+            "Version table restated from the changelog; ClientBuilder side covered by the client-level checks.",
+            "exhaustive enumeration of small configuration matrices + property-based traffic generation", "5 C12"),
 }
 
 NOT_YET = {}
@@ -55,11 +87,12 @@ def main():
             "guard": "cargo feature `verif-hooks` of aldrin-broker (off by default)",
             "enable": "the harness crates depend on aldrin-broker with features = [\"statistics\", \"verif-hooks\"]",
             "baseline_off_cmd": "cd /repo && cargo test --workspace --no-fail-fast --offline",
-            "source_commits": [],
+            "source_commits": ["7a880ef"],
             "add_only": True,
         },
         "engines": [
             {"name": "codec", "path": "harness/codec", "serves_properties": ["C01", "C07", "C08", "C13", "C14"], "kind_free_text": "proptest-driven tape generators + independent reference codec (refcodec) + differential/round-trip oracles; worker subprocesses with crash attribution"},
+            {"name": "bus", "path": "harness/bus", "serves_properties": ["C02", "C03", "C04", "C05", "C09", "C10", "C11", "C12"], "kind_free_text": "simbus (deterministic single-threaded executor + getrandom shim) running the real broker with raw protocol peers, lock-step against busmodel (reference model of the protocol)"},
         ],
         "checks": checks,
         "not_applicable": na,
